@@ -3,14 +3,20 @@
 # must stay quiet (exit 0) on each of them. /repo must be clean; it is restored.
 cd /verif
 export VERIF_EVIDENCE_DIR=/tmp/seeded_evidence
+# however this script ends, /repo goes back to its committed state (see seeded.sh)
+applied=0
+trap 'test $applied = 1 && git -C /repo checkout -- .' EXIT
+trap 'exit 130' INT TERM HUP PIPE
 for d in benign/*.diff; do
   n=$(basename $d .diff)
   checks=$(sed -n 's/^checks: //p' benign/$n.txt)
   test -z "$(git -C /repo status --porcelain)" || { echo "/repo not clean"; exit 2; }
   git -C /repo apply /verif/$d || { echo "$n: patch does not apply"; continue; }
+  applied=1
   for p in $checks; do
     out=$(timeout 1500 ./vcheck check $p --tier quick 2>&1); rc=$?
     echo "$n $p rc=$rc $(echo "$out" | grep -E '^violation|harness' | head -2 | cut -c1-300)"
   done
   git -C /repo checkout -- .
+  applied=0
 done
